@@ -278,6 +278,43 @@ v('c14r13-next-selected-no-guard', 'C14', 'C14-R13', 'src/terminal.go', "\t\t\t\
 v('c18r10-openfile-no-trunc', 'C18', 'C18-R10', 'src/history.go', "\treturn os.WriteFile(h.path, []byte(strings.Join(h.lines, \"\\n\")), 0600)", "\tf, err := os.OpenFile(h.path, os.O_WRONLY|os.O_CREATE, 0600)\n\tif err != nil {\n\t\treturn err\n\t}\n\tdefer f.Close()\n\t_, err = f.WriteString(strings.Join(h.lines, \"\\n\"))\n\treturn err")
 v('c05r13-pattern-scratch', 'C05', 'C05-R13', 'src/pattern.go', "\tif p.extended {\n\t\tif offsets, bonus, pos := p.extendedMatch(item, withPos, slab); len(offsets) == len(p.termSets) {", "\tp.cacheKey = p.cacheKey[:len(p.cacheKey)]\n\tif p.extended {\n\t\tif offsets, bonus, pos := p.extendedMatch(item, withPos, slab); len(offsets) == len(p.termSets) {")
 
+# ---- round 8 rules: broken variants other than the seeded changes themselves, and behaviour-preserving edits
+v('c01r10-length-compare', 'C01', 'C01-R10', 'src/terminal.go', "t.pasting == nil && string(previousInput) != string(t.input)", "t.pasting == nil && len(previousInput) != len(t.input)")
+b('changed-set-under-if', ['C01', 'C08'], 'src/terminal.go', "\t\t\tchanged = changed || queryChanged\n", "\t\t\tif queryChanged {\n\t\t\t\tchanged = true\n\t\t\t}\n")
+v('c01r11-leading-blank-only', 'C01', 'C01-R11', 'src/util/chars.go', "\tfor i := 0; i < chars.Length(); i++ {\n\t\tchar := chars.Get(i)\n\t\tif !unicode.IsSpace(char) {", "\tfor i := 0; i < chars.Length(); i++ {\n\t\tchar := chars.Get(i)\n\t\tif char != ' ' && char != '\\t' {")
+b('trailing-ws-ascii-fast-path', ['C01', 'C05'], 'src/util/chars.go', "func (chars *Chars) TrailingWhitespaces() int {\n\twhitespaces := 0\n", "func (chars *Chars) TrailingWhitespaces() int {\n\twhitespaces := 0\n\tif chars.inBytes {\n\t\tfor i := len(chars.slice) - 1; i >= 0; i-- {\n\t\t\tb := chars.slice[i]\n\t\t\tif b != ' ' && b != '\\t' && b != '\\n' && b != '\\v' && b != '\\f' && b != '\\r' {\n\t\t\t\tbreak\n\t\t\t}\n\t\t\twhitespaces++\n\t\t}\n\t\treturn whitespaces\n\t}\n")
+v('c02r14-white-too-big', 'C02', 'C02-R14', 'src/algo/algo.go', "\tcase \"default\":\n\t\tbonusBoundaryWhite = bonusBoundary + 2", "\tcase \"default\":\n\t\tbonusBoundaryWhite = bonusBoundary + 3")
+v('c02r15-v1-latin1-gap', 'C02', 'C02-R15', 'src/algo/algo.go', "\t\t\t} else if char > unicode.MaxASCII {", "\t\t\t} else if char > unicode.MaxLatin1 {")
+b('fold-guard-geq-128', ['C02'], 'src/algo/algo.go', "\t\t\t} else if char > unicode.MaxASCII {", "\t\t\t} else if char >= 128 {")
+v('c03r8-matcher-of-first-term', 'C03', 'C03-R8', 'src/pattern.go', "\t\t\tpfun := p.procFun[term.typ]", "\t\t\tpfun := p.procFun[termSet[0].typ]")
+v('c05r15-reslice-slab', 'C05', 'C05-R15', 'src/algo/algo.go', "\tif slab != nil && cap(slab.I32) > offset+size {\n", "\tif slab != nil && cap(slab.I32) > offset+size {\n\t\tslab.I32 = slab.I32[:cap(slab.I32)]\n")
+v('c05r16-call-counter', 'C05', 'C05-R16', 'src/algo/algo.go', "func charClassOfNonAscii(char rune) charClass {\n", "var nonAsciiLookups int\n\nfunc charClassOfNonAscii(char rune) charClass {\n\tnonAsciiLookups++\n")
+v('c06r12-first-loop-to-capacity', 'C06', 'C06-R12', 'src/pattern.go', "\t\tfor idx := 0; idx < chunk.count; idx++ {", "\t\tfor idx := 0; idx < chunkSize; idx++ {")
+b('matchchunk-count-in-local', ['C06', 'C13', 'C04'], 'src/pattern.go', "\t\tfor idx := 0; idx < chunk.count; idx++ {", "\t\tfor idx, n := 0, chunk.count; idx < n; idx++ {")
+v('c07r12-swapped-elements', 'C07', 'C07-R12', 'src/matcher.go', "MatchRequest{chunks, pattern, final, sort, revision, m.reqSeq}", "MatchRequest{chunks, pattern, sort, final, revision, m.reqSeq}")
+b('matchrequest-keyed-literal', ['C07', 'C08'], 'src/matcher.go', "MatchRequest{chunks, pattern, final, sort, revision, m.reqSeq}", "MatchRequest{chunks: chunks, pattern: pattern, final: final, sort: sort, revision: revision, seq: m.reqSeq}")
+v('c08r21-own-twice', 'C08', 'C08-R21', 'src/terminal.go', "\t\tr.denylist = append(pending.denylist, r.denylist...)", "\t\tr.denylist = append(r.denylist, r.denylist...)")
+b('merge-denylist-other-order', ['C08'], 'src/terminal.go', "\t\tr.denylist = append(pending.denylist, r.denylist...)", "\t\tr.denylist = append(r.denylist, pending.denylist...)")
+v('c10r9-single-index-off-by-one', 'C10', 'C10-R9', 'src/tokenizer.go', "\t\t\t\tif idx < 0 {\n\t\t\t\t\tidx += numTokens + 1\n", "\t\t\t\tif idx < 0 {\n\t\t\t\t\tidx += numTokens\n")
+v('c11r18-mirrored-strict', 'C11', 'C11-R18', 'src/ansi.go', "\t} else if col >= (1 << 24) {", "\t} else if (1 << 24) < col {")
+b('truecolor-test-mirrored', ['C11'], 'src/ansi.go', "\t} else if col >= (1 << 24) {", "\t} else if (1 << 24) <= col {")
+v('c11r19-csi-needs-four', 'C11', 'C11-R19', 'src/ansi.go', "\t\t\tif i+2 < len(s) && isCtrlSeqStart(s[i+1]) {", "\t\t\tif i+3 < len(s) && isCtrlSeqStart(s[i+1]) {")
+b('csi-pretest-weaker', ['C11'], 'src/ansi.go', "\t\t\tif i+2 < len(s) && isCtrlSeqStart(s[i+1]) {", "\t\t\tif i+1 < len(s) && isCtrlSeqStart(s[i+1]) {")
+v('c12r12-origtext-not-kept', 'C12', 'C12-R12', 'src/core.go', "\t\t\titem.text.Index = itemIndex\n\t\t\titem.origText = &data\n", "\t\t\titem.text.Index = itemIndex\n\t\t\tif len(data) > 0 && data[0] != ' ' {\n\t\t\t\titem.origText = &data\n\t\t\t}\n")
+v('c14r17-guard-wrong-sign', 'C14', 'C14-R17', 'src/terminal.go', "\tlength := t.displayWidth(runes)\n\tif length == 0 {", "\tlength := t.displayWidth(runes)\n\tif length < 0 {")
+b('label-guard-leq-zero', ['C14'], 'src/terminal.go', "\tlength := t.displayWidth(runes)\n\tif length == 0 {", "\tlength := t.displayWidth(runes)\n\tif length <= 0 {")
+v('c15r14-home-when-not-fullscreen', 'C15', 'C15-R14', 'src/tui/light.go', "func (r *LightRenderer) Clear() {\n\tif r.fullscreen {", "func (r *LightRenderer) Clear() {\n\tif !r.fullscreen {")
+v('c15r15-first-piece-width-dropped', 'C15', 'C15-R15', 'src/terminal.go', "\t\tsubstr, prefixWidth = t.processTabs(text[index:b], prefixWidth)", "\t\tsubstr, _ = t.processTabs(text[index:b], prefixWidth)")
+v('c16r18-any-address-is-local', 'C16', 'C16-R18', 'src/server.go', "\treturn addr.host == \"localhost\" || addr.host == \"127.0.0.1\"", "\treturn addr.host == \"localhost\" || addr.host == \"127.0.0.1\" || addr.host == \"0.0.0.0\"")
+b('islocal-knows-ipv6-loopback', ['C16'], 'src/server.go', "\treturn addr.host == \"localhost\" || addr.host == \"127.0.0.1\"", "\treturn addr.host == \"localhost\" || addr.host == \"127.0.0.1\" || addr.host == \"::1\"")
+v('c17r20-give-up-at-backslash', 'C17', 'C17-R20', 'src/options.go', "\t\tcase '<':\n\t\t\tce = \">\"\n", "\t\tcase '<':\n\t\t\tce = \">\"\n\t\tcase '\\\\':\n\t\t\tmasked += action\n\t\t\tbreak Loop\n")
+v('c17r21-backticks-expanded', 'C17', 'C17-R21', 'src/options.go', "\tparser.ParseComment = true\n\twords, err := parser.Parse(str)", "\tparser.ParseComment = true\n\tparser.ParseBacktick = true\n\twords, err := parser.Parse(str)")
+v('c18r12-usage-says-more', 'C18', 'C18-R12', 'src/options.go', "Maximum number of history entries (default: 1000)", "Maximum number of history entries (default: 2000)")
+v('c19r12-trailing-separator-trimmed', 'C19', 'C19-R12', 'src/reader.go', "\treturn byteString(bytes)\n}\n\nfunc (r *Reader) readFiles", "\treturn strings.TrimRight(byteString(bytes), \"/\")\n}\n\nfunc (r *Reader) readFiles")
+v('c20r15-header-part-conditional', 'C20', 'C20-R15', 'src/terminal.go', "\t\tt.renderPreviewText(height, header, 0, false)", "\t\tt.renderPreviewText(height, header, 0, unchanged && t.previewed.filled)")
+v('c09r15-unkeyed-prompt-memo', 'C09', 'C09-R15', 'src/terminal.go', "func findFirstMatch(pattern string, str string) int {\n\trx, err := regexp.Compile(pattern)\n\tif err != nil {\n\t\treturn -1\n\t}\n", "var firstMatchRegexp *regexp.Regexp\n\nfunc findFirstMatch(pattern string, str string) int {\n\tif firstMatchRegexp == nil {\n\t\tcompiled, err := regexp.Compile(pattern)\n\t\tif err != nil {\n\t\t\treturn -1\n\t\t}\n\t\tfirstMatchRegexp = compiled\n\t}\n\trx := firstMatchRegexp\n")
+b('keyed-regexp-memo', ['C09'], 'src/terminal.go', "func findLastMatch(pattern string, str string) int {\n\trx, err := regexp.Compile(pattern)\n\tif err != nil {\n\t\treturn -1\n\t}\n", "var lastMatchPattern string\nvar lastMatchRegexp *regexp.Regexp\n\nfunc findLastMatch(pattern string, str string) int {\n\tif lastMatchRegexp == nil || lastMatchPattern != pattern {\n\t\tcompiled, err := regexp.Compile(pattern)\n\t\tif err != nil {\n\t\t\treturn -1\n\t\t}\n\t\tlastMatchRegexp, lastMatchPattern = compiled, pattern\n\t}\n\trx := lastMatchRegexp\n")
+
 def build(entries, outdir, kind):
     """One persistent scratch worktree per worker (same path for every variant, so the Go build cache hits);
     removed at the end."""
